@@ -63,6 +63,19 @@ func (d *tDecoder) mallocIfPointer(t *tType, p unsafe.Pointer) (ret unsafe.Point
 	return p
 }
 
+// skipType skips the value of wire type t at the start of b and returns its length.
+//
+// thrift.Binary.Skip uses the type code as a signed index of its size table, it panics
+// for codes >= 0x80 at any nesting level. Such input is malformed: report it as an error.
+func skipType(b []byte, t ttype) (n int, err error) {
+	defer func() {
+		if r := recover(); r != nil {
+			n, err = 0, fmt.Errorf("invalid data: %v", r)
+		}
+	}()
+	return thrift.Binary.Skip(b, thrift.TType(t))
+}
+
 func (d *tDecoder) Decode(b []byte, base unsafe.Pointer, sd *structDesc, maxdepth int) (int, error) {
 	if maxdepth == 0 {
 		return 0, errDepthLimitExceeded
@@ -101,7 +114,7 @@ func (d *tDecoder) Decode(b []byte, base unsafe.Pointer, sd *structDesc, maxdept
 
 		f := sd.GetField(fid)
 		if f == nil || f.Type.WT != tp {
-			n, err := thrift.Binary.Skip(b[i:], thrift.TType(tp))
+			n, err := skipType(b[i:], tp)
 			if err != nil {
 				return i, fmt.Errorf("skip unknown field %d of struct %s err: %w", fid, sd.rt.String(), err)
 			}
